@@ -422,7 +422,7 @@ func transparent(f *types.Func) bool {
 	}
 	switch f.Pkg().Path() {
 	case "math/big", "strings", "bytes", "strconv", "fmt", "encoding/json", "encoding/hex", "encoding/base64",
-		"net/url", "net", "time", "path", "unicode", "errors", "sort", "math", "context",
+		"net/url", "net", "time", "path", "unicode", "errors", "sort", "math", "context", "io", "bufio",
 		"github.com/ethereum/go-ethereum/crypto", "github.com/ethereum/go-ethereum/common",
 		"github.com/ethereum/go-ethereum/p2p/discv5":
 		return true
